@@ -42,10 +42,6 @@ def pathOp (ws : List String) : Option String :=
      fsexists p | fsreadall p | fsls p | fsfile p flags script
 -/
 
-def initFs : Fs :=
-  ⟨[([[115]], .dir), ([[111]], .dir), ([[111], [111, 102]], .file [79, 85, 84]),
-    ([[111], [111, 100]], .dir), ([[111], [111, 100], [120]], .file [88])]⟩
-
 def cpathHex (p : CPath) : String := toHex (([47] : Bytes).intercalate p)
 
 def snapshot (fs : Fs) : String :=
@@ -121,68 +117,53 @@ def outStr : FileOut → String
   | .size (some n) => s!" z={n}"
   | .size none => " z=-1"
 
-def runScript (fs : Fs) (fd : Fd) (items : List String) : Fs × String :=
-  let (ops, ok) := parseScript items
-  let (fs', _, outs) := runOps fs fd ops
-  (fs', String.join (outs.map outStr) ++ (if ok then "" else " bad"))
-
 def fsOp (fs : Fs) (ws : List String) : Option (Fs × String) :=
   match ws with
   | ["fsmkdir", p] => do
       let p ← fromHex p; if !okFsPath p then none
-      let (fs', r) := sysMkdir fs p
-      pure (fs', b01 (isOk r))
+      pure (fsApply fs (.mkdir p), b01 (isOk (sysMkdir fs p).2))
   | ["fsmkfile", p, d] => do
       let p ← fromHex p; let d ← fromHex d; if !okFsPath p then none
-      let (fs', ok) := mkfile fs p d
-      pure (fs', b01 ok)
+      pure (fsApply fs (.mkfile p d), b01 (mkfile fs p d).2)
   | ["fssymlink", t, p] => do
       let t ← fromHex t; let p ← fromHex p; if !(okFsPath p && okFsPath t) then none
-      let (fs', r) := sysSymlink fs t p
-      pure (fs', b01 (isOk r))
+      pure (fsApply fs (.symlink t p), b01 (isOk (sysSymlink fs t p).2))
   | ["fscreate", p] => do
       let p ← fromHex p; if !okFsPath p then none
-      let (fs', r, _) := dirCreateTop fs p none
-      pure (fs', b01 r)
+      pure (fsApply fs (.create p none), b01 (dirCreateTop fs p none).2.1)
   | ["fscreateabs", p] => do
       let p ← fromHex p; if !okFsPath p || startsWith47 p then none
-      let (fs', r, _) := dirCreateTop fs ([47, 115, 47] ++ p) none
-      pure (fs', b01 r)
+      pure (fsApply fs (.create ([47, 115, 47] ++ p) none), b01 (dirCreateTop fs ([47, 115, 47] ++ p) none).2.1)
   | ["fscreatef", p, k] => do
       let p ← fromHex p; let k ← k.toNat?; if !okFsPath p then none
-      let (fs', r, fired) := dirCreateTop fs p (some k)
-      pure (fs', s!"{b01 r} fired={fired}")
+      let (_, r, fired) := dirCreateTop fs p (some k)
+      pure (fsApply fs (.create p (some k)), s!"{b01 r} fired={fired}")
   | ["fspurge", p, r] => do
       let p ← fromHex p; let r ← parseBool r; if !(okFsPath p && purgeOk p) || hitsCwd fs p then none
-      let (fs', ok) := dirPurge fs p r
-      pure (fs', b01 ok)
+      pure (fsApply fs (.purge p r), b01 (dirPurge fs p r).2)
   | ["fsabspath", p] => do
       let p ← fromHex p; if !okStr p then none
       pure (fs, toHex (getAbsolutePath p))
   | ["fsrmdir", p, r] => do
       let p ← fromHex p; let r ← parseBool r; if !(okFsPath p && lastIsName p) || hitsCwd fs p then none
-      let (fs', ok) := dirUnlinkTop fs p r
-      pure (fs', b01 ok)
+      pure (fsApply fs (.rmdir p r), b01 (dirUnlinkTop fs p r).2)
   | ["fsunlink", p] => do
       let p ← fromHex p; if !(okFsPath p && lastIsName p) then none
-      let (fs', ok) := fileUnlink fs p
-      pure (fs', b01 ok)
+      pure (fsApply fs (.unlink p), b01 (fileUnlink fs p).2)
   | ["fsrename", a, b, f] => do
       let a ← fromHex a; let b ← fromHex b; let f ← parseBool f
       if !(okFsPath a && okFsPath b && lastIsName a && lastIsName b) || hitsCwd fs a then none
-      let (fs', ok) := fileRename fs a b f
-      pure (fs', b01 ok)
+      pure (fsApply fs (.rename a b f), b01 (fileRename fs a b f).2)
   | ["fscopy", a, b, f] => do
       let a ← fromHex a; let b ← fromHex b; let f ← parseBool f
       if !(okFsPath a && okFsPath b && lastIsName b) then none
-      let (fs', ok, _) := fileCopy fs a b f .none
-      pure (fs', b01 ok)
+      pure (fsApply fs (.copy a b f .none), b01 (fileCopy fs a b f .none).2.1)
   | ["fscopyf", a, b, f, m] => do
       let a ← fromHex a; let b ← fromHex b; let f ← parseBool f
       let m ← (if m == "0" then some SfFault.fail else if m == "1" then some SfFault.half else none)
       if !(okFsPath a && okFsPath b && lastIsName b) then none
-      let (fs', ok, fired) := fileCopy fs a b f m
-      pure (fs', s!"{b01 ok} fired={b01 fired}")
+      let (_, ok, fired) := fileCopy fs a b f m
+      pure (fsApply fs (.copy a b f m), s!"{b01 ok} fired={b01 fired}")
   | ["fsexists", p] => do
       let p ← fromHex p; if !okFsPath p then none
       pure (fs, s!"{b01 (fileExists fs p)} {b01 (dirExists fs p)}")
@@ -196,11 +177,11 @@ def fsOp (fs : Fs) (ws : List String) : Option (Fs × String) :=
         | none => "ls=0")
   | ["fsfile", p, flags, script] => do
       let p ← fromHex p; let flags ← flags.toNat?; if !okFsPath p || flags ≥ 16 then none
-      match fileOpen fs p flags with
-      | (fs', none) => pure (fs', "open=0")
-      | (fs', some fd) =>
-        let (fs'', out) := runScript fs' fd (script.splitOn ",")
-        pure (fs'', "open=1" ++ out)
+      let (ops, ok) := parseScript (script.splitOn ",")
+      let fs' := fsApply fs (.file p flags ops)
+      match (fileSession fs p flags ops).2 with
+      | none => pure (fs', "open=0")
+      | some outs => pure (fs', "open=1" ++ String.join (outs.map outStr) ++ (if ok then "" else " bad"))
   | _ => none
 
 structure St where
